@@ -18,6 +18,7 @@ import (
 	"os"
 	"os/exec"
 	"path/filepath"
+	"regexp"
 	"sort"
 	"strconv"
 	"strings"
@@ -39,6 +40,7 @@ import (
 	lockuptypes "github.com/osmosis-labs/osmosis/v31/x/lockup/types"
 	minttypes "github.com/osmosis-labs/osmosis/v31/x/mint/types"
 	poolmanagertypes "github.com/osmosis-labs/osmosis/v31/x/poolmanager/types"
+	sftypes "github.com/osmosis-labs/osmosis/v31/x/superfluid/types"
 	tftypes "github.com/osmosis-labs/osmosis/v31/x/tokenfactory/types"
 	"github.com/osmosis-labs/osmosis/v31/zzverif/chain"
 	"github.com/osmosis-labs/osmosis/v31/zzverif/vk"
@@ -49,6 +51,9 @@ type c19Block struct {
 	TimeNs int64    `json:"time_ns"`
 	Txs    []string `json:"txs"`
 	Descs  []string `json:"descs,omitempty"`
+	// Admin lists state changes applied by every node right before this block, the way a passed
+	// governance proposal would be (e.g. enabling a superfluid asset)
+	Admin []string `json:"admin,omitempty"`
 }
 
 type c19TxTrace struct {
@@ -59,6 +64,7 @@ type c19TxTrace struct {
 	Data      string `json:"data"`
 	Events    string `json:"events"` // sha256 of the canonical rendering
 	EventsRaw string `json:"events_raw,omitempty"`
+	Log       string `json:"log,omitempty"` // diagnostic only, not compared
 }
 
 type c19BlockTrace struct {
@@ -103,6 +109,9 @@ func c19Trace(res *abci.ResponseFinalizeBlock, height int64, keepRaw bool) c19Bl
 		t := c19TxTrace{Code: r.Code, Codespace: r.Codespace, GasUsed: r.GasUsed, GasWanted: r.GasWanted, Data: hex.EncodeToString(r.Data), Events: sha(ev)}
 		if keepRaw {
 			t.EventsRaw = ev
+			if r.Code != 0 {
+				t.Log = trunc(r.Log, 300)
+			}
 		}
 		bt.Txs = append(bt.Txs, t)
 	}
@@ -243,6 +252,11 @@ func (g *c19Gen) setupBlock(b int) ([][]byte, []string) {
 		bm2 := balancer.NewMsgCreateBalancerPool(g.acc(4).Addr, balancer.NewPoolParams(osmomath.MustNewDecFromStr("0.01"), osmomath.ZeroDec(), nil),
 			[]balancer.PoolAsset{{Weight: sdkmath.NewInt(3), Token: c("uosmo", 200000000000)}, {Weight: sdkmath.NewInt(1), Token: c("baz", 300000000000)}, {Weight: sdkmath.NewInt(1), Token: c("bar", 100000000000)}}, "")
 		add(g.acc(4), "create balancer uosmo/baz/bar", &bm2)
+		// a pool whose weights shift over time, start time left to the state machine
+		lbp := balancer.NewMsgCreateBalancerPool(g.acc(5).Addr, balancer.NewPoolParams(osmomath.MustNewDecFromStr("0.002"), osmomath.ZeroDec(), &balancer.SmoothWeightChangeParams{Duration: 5 * time.Hour,
+			TargetPoolWeights: []balancer.PoolAsset{{Weight: sdkmath.NewInt(1), Token: c("uosmo", 0)}, {Weight: sdkmath.NewInt(4), Token: c("foo", 0)}}}),
+			[]balancer.PoolAsset{{Weight: sdkmath.NewInt(3), Token: c("uosmo", 300000000000)}, {Weight: sdkmath.NewInt(1), Token: c("foo", 300000000000)}}, "")
+		add(g.acc(5), "create weight-shifting pool uosmo/foo", &lbp)
 	case 1:
 		g.tfDenom = "factory/" + g.acc(3).Addr.String() + "/tok"
 		add(g.acc(2), "CL full range", &cltypes.MsgCreatePosition{PoolId: 3, Sender: g.acc(2).Addr.String(), LowerTick: cltypes.MinInitializedTick, UpperTick: cltypes.MaxTick, TokensProvided: sdk.NewCoins(c("bar", 400000000000), c("uosmo", 200000000000)), TokenMinAmount0: sdkmath.ZeroInt(), TokenMinAmount1: sdkmath.ZeroInt()})
@@ -291,11 +305,12 @@ func (g *c19Gen) randomBlock() ([][]byte, []string) {
 		a := g.acc(ai)
 		var msg sdk.Msg
 		d := ""
-		switch r.Intn(16) {
+		switch r.Intn(19) {
 		case 0, 1:
 			routes := [][]poolmanagertypes.SwapAmountInRoute{
 				{{PoolId: 1, TokenOutDenom: "uosmo"}}, {{PoolId: 1, TokenOutDenom: "uosmo"}, {PoolId: 3, TokenOutDenom: "bar"}}, {{PoolId: 1, TokenOutDenom: "uosmo"}, {PoolId: 3, TokenOutDenom: "bar"}, {PoolId: 2, TokenOutDenom: "foo"}},
 				{{PoolId: 2, TokenOutDenom: "bar"}, {PoolId: 4, TokenOutDenom: "baz"}},
+				{{PoolId: 5, TokenOutDenom: "uosmo"}}, {{PoolId: 5, TokenOutDenom: "uosmo"}, {PoolId: 4, TokenOutDenom: "bar"}},
 			}
 			rt := routes[r.Intn(len(routes))]
 			min := sdkmath.OneInt()
@@ -379,6 +394,26 @@ func (g *c19Gen) randomBlock() ([][]byte, []string) {
 			msg, d = &banktypes.MsgSend{FromAddress: a.Addr.String(), ToAddress: g.acc(r.Intn(8)).Addr.String(), Amount: sdk.NewCoins(c([]string{"uosmo", "foo", "bar", "baz"}[r.Intn(4)], 1+r.I64n(1000000)))}, "send"
 		case 13:
 			msg, d = &gammtypes.MsgExitSwapShareAmountIn{Sender: a.Addr.String(), PoolId: 1, TokenOutDenom: "foo", ShareInAmount: gammtypes.OneShare.QuoRaw(100 + r.I64n(1000)), TokenOutMinAmount: sdkmath.OneInt()}, "exit swap"
+		case 16:
+			have := ch.Bal(a.Addr, "gamm/pool/1")
+			if !have.IsPositive() {
+				continue
+			}
+			msg, d = &sftypes.MsgLockAndSuperfluidDelegate{Sender: a.Addr.String(), Coins: sdk.NewCoins(sdk.NewCoin("gamm/pool/1", sdkmath.MaxInt(sdkmath.OneInt(), have.QuoRaw(5+r.I64n(20))))), ValAddr: ch.Vals[r.Intn(len(ch.Vals))].OpAddr.String()}, "superfluid lock-and-delegate"
+		case 17, 18:
+			ls := ch.App.LockupKeeper.GetAccountPeriodLocks(ch.Ctx, a.Addr)
+			if len(ls) == 0 {
+				continue
+			}
+			l := ls[r.Intn(len(ls))]
+			switch r.Intn(3) {
+			case 0:
+				msg, d = &sftypes.MsgSuperfluidDelegate{Sender: a.Addr.String(), LockId: l.ID, ValAddr: ch.Vals[r.Intn(len(ch.Vals))].OpAddr.String()}, "superfluid delegate"
+			case 1:
+				msg, d = &sftypes.MsgSuperfluidUndelegate{Sender: a.Addr.String(), LockId: l.ID}, "superfluid undelegate"
+			default:
+				msg, d = &sftypes.MsgSuperfluidUnbondLock{Sender: a.Addr.String(), LockId: l.ID}, "superfluid unbond"
+			}
 		case 14:
 			msg, d = &poolmanagertypes.MsgSwapExactAmountIn{Sender: a.Addr.String(), Routes: []poolmanagertypes.SwapAmountInRoute{{PoolId: 3, TokenOutDenom: "bar"}}, TokenIn: c("uosmo", 1000+r.I64n(900000000)), TokenOutMinAmount: sdkmath.OneInt()}, "cl swap"
 		default:
@@ -436,6 +471,10 @@ func c19RunRole(c *vk.Ctx) bool {
 				dt = time.Millisecond * time.Duration(1+g.r.I64n(2000))
 			}
 			blk := c19Block{Height: ch.Height, TimeNs: ch.Time.UnixNano(), Descs: ds}
+			if b == 3 {
+				blk.Admin = []string{"superfluid-asset:gamm/pool/1"}
+			}
+			c19ApplyAdmin(ch, blk.Admin)
 			for _, t := range txs {
 				blk.Txs = append(blk.Txs, base64.StdEncoding.EncodeToString(t))
 			}
@@ -507,6 +546,8 @@ func c19RunRole(c *vk.Ctx) bool {
 				txs = append(txs, bz)
 			}
 			ch.Time = time.Unix(0, blk.TimeNs).UTC()
+			ch.ResetCtx()
+			c19ApplyAdmin(ch, blk.Admin)
 			c19TraceSwitch(dir, tag, blk.Height)
 			res := ch.NextBlock(0, txs...)
 			c19TraceSwitch(dir, tag, -1)
@@ -570,7 +611,7 @@ func runC19(c *vk.Ctx) {
 	if c19RunRole(c) {
 		return
 	}
-	c.R.Rule = "cases = transaction histories (signed transactions through FinalizeBlock: pool creation, joins/exits, routed / split swaps with taker fees incl. failing ones, concentrated positions, swaps, claims, locks with reward receivers, gauges, token-factory mint / burn / force-transfer, bank sends; several transactions per block; day and week epoch boundaries) generated and executed by a primary process; 3 replica processes replay the history with GOMAXPROCS 1 / 4 / 16 and different GOGC (every process has its own map-iteration seeds); for every export point (every k-th block and every epoch block) a fresh process is initialised from the exported state and fed the rest of the history. Compared: app hash, per-transaction code / codespace / gas / data / events and block events between replicas of one lineage; per-transaction results, canonicalised per-module exported state and a query battery (spot prices, estimates, TWAPs, balances, locks, gauges, supply) at the final height between the original and every imported node. distinct_nontrivial counts distinct (comparison kind, message kinds in the block, epoch block?, export distance bucket) tuples."
+	c.R.Rule = "cases = transaction histories (signed transactions through FinalizeBlock: pool creation, joins/exits, routed / split swaps with taker fees incl. failing ones, concentrated positions, swaps, claims, locks with reward receivers, superfluid delegate / undelegate / unbond on a share denom enabled in genesis, a weight-shifting balancer pool, gauges, token-factory mint / burn / force-transfer, bank sends; several transactions per block; day and week epoch boundaries) generated and executed by a primary process; 3 replica processes replay the history with GOMAXPROCS 1 / 4 / 16 and different GOGC (every process has its own map-iteration seeds); for every export point (every k-th block and every epoch block) a fresh process is initialised from the exported state and fed the rest of the history. Compared: app hash, per-transaction code / codespace / gas / data / events and block events between replicas of one lineage; per-transaction results, canonicalised per-module exported state and a query battery (spot prices, estimates, TWAPs, balances, locks, gauges, supply) at the final height between the original and every imported node. distinct_nontrivial counts distinct (comparison kind, message kinds in the block, epoch block?, export distance bucket) tuples."
 	nHist := c.N(2, 16)
 	nBlocks := c.N(60, 400)
 	if os.Getenv("VERIF_C19_MODE") == "race" {
@@ -670,7 +711,11 @@ func runC19(c *vk.Ctx) {
 				if strings.HasPrefix(d.tag, "import") {
 					kind = "import"
 				}
-				c.Violate("C19."+kind+"_process_failed", map[string]any{"kind": kind}, "process %s failed: %v\n%s", d.tag, d.err, trunc(d.out, 3000))
+				fsig := map[string]any{"kind": kind}
+				if m := regexp.MustCompile(`invariant broken: (\S+) (\S+) invariant`).FindStringSubmatch(d.out); m != nil {
+					fsig["invariant"] = strings.TrimSuffix(m[1], ":") + "/" + m[2]
+				}
+				c.Violate("C19."+kind+"_process_failed", fsig, "process %s failed: %v\n%s", d.tag, d.err, trunc(d.out, 3000))
 				failed = true
 			}
 		}
@@ -729,6 +774,7 @@ func runC19(c *vk.Ctx) {
 					}
 					if x.Code != y.Code || x.Codespace != y.Codespace || x.Data != y.Data || x.Events != y.Events || x.GasUsed != y.GasUsed {
 						sig["field"] = c19DiffField(x, y)
+						sig["msg"] = strings.Fields(descs[h][k])[0]
 						if isImport && !firstTxSeen && sig["field"] == "gas" && x.GasUsed-y.GasUsed == 36 {
 							// the first transaction after an import: recorded and the comparison goes on
 							firstTxSeen = true
@@ -739,6 +785,11 @@ func runC19(c *vk.Ctx) {
 							continue
 						}
 						c.Violate("C19.tx_results", sig, "height %d tx %d (%s): primary code=%d/%s gas=%d data=%s; %s code=%d/%s gas=%d data=%s\nprimary events: %s\n%s events: %s", h, k, descs[h][k], x.Code, x.Codespace, x.GasUsed, x.Data, j.tag, y.Code, y.Codespace, y.GasUsed, y.Data, trunc(x.EventsRaw, 1500), j.tag, trunc(y.EventsRaw, 1500))
+						if isImport && sig["field"] == "gas" {
+							// a gas-only difference does not change state: keep comparing the rest of the history
+							sig = map[string]any{"lineage": "import", "epoch_block": epoch}
+							continue
+						}
 						return
 					}
 				}
@@ -976,4 +1027,14 @@ func c19GenericPath(p string) string {
 		}
 	}
 	return sb.String()
+}
+
+func c19ApplyAdmin(ch *chain.Chain, admin []string) {
+	for _, a := range admin {
+		if d, ok := strings.CutPrefix(a, "superfluid-asset:"); ok {
+			if err := ch.App.SuperfluidKeeper.AddNewSuperfluidAsset(ch.Ctx, sftypes.SuperfluidAsset{Denom: d, AssetType: sftypes.SuperfluidAssetTypeLPShare}); err != nil {
+				panic(fmt.Sprintf("admin %s: %v", a, err))
+			}
+		}
+	}
 }
